@@ -75,6 +75,9 @@ def check(repo: Repo, rep: Report) -> None:
     rem = [s for s in sites(ex) if isinstance(s.node, ast.Call) and isinstance(s.node.func, ast.Attribute) and s.node.func.attr == "remove"
            and dotted(s.node.func.value) in groups]
     rep.ob("G2-expiry", ex, "duration subscription released", bool(rem), "the duration subscription of an expired group is kept")
+    from . import sync_common as SY
+    rep.rule("G5-registered-before-subscribe", "the duration subscription's holder is registered before the duration sequence is subscribed", floor=1)
+    SY.rule_registered_before_subscribe(rep, "G5-registered-before-subscribe", root)
     sl = signature(model_of(repo), root)["source#0"]
     for slot, pat, kind in (("on_error", r"^e*E$", "error"), ("on_completed", r"^c*C$", "completion")):
         v = sl[slot]
